@@ -245,6 +245,11 @@ FIXED_CALLS = [
     ("duplicate", [("a", ["py", "int"], False)], [["wi", "INT", 5, 5]], [["a", ["wi", "INT", 6, 6]]]),
     ("duplicate-kw", [("a", ["py", "int"], False)], [], [["a", ["wi", "INT", 5, 5]], ["a", ["wi", "INT", 6, 6]]]),
     ("unknown-kw", [("a", ["py", "int"], False)], [["wi", "INT", 5, 5]], [["z", ["wi", "INT", 6, 6]]]),
+    ("list-minlength-unbounded-1", [("a", ["list", ["py", "int"], None, 2], False)], [["wo", "list", [["wi", "INT", 1, 1]]]], []),
+    ("list-minlength-unbounded-0", [("a", ["list", ["py", "int"], None, 1], False)], [["wo", "list", []]], []),
+    ("list-minlength-bounded", [("a", ["list", ["py", "int"], 3, 2], False)], [["wo", "list", [["wi", "INT", 1, 1]]]], []),
+    ("bytes-minlength-unbounded", [("a", ["bytes", None, 2], False)], [["ws", False, 1, [65]]], []),
+    ("text-minlength-unbounded", [("a", ["text", None, 2], False)], [["wo", "unicode", [["ws", False, 1, [65]]]]], []),
     ("zero-maxlength-bytes", [("a", ["bytes", 0, 0], False)], [["ws", False, 1, [65]]], []),
 ]
 
@@ -259,12 +264,12 @@ def guarded(ctx, fn, *a):
         return None
 
 
-def run_call(ctx, S, E, tag, family, argspec, pos, kws):
+def run_call(ctx, S, E, tag, family, argspec, pos, kws, vocab=0):
     cons = []
     for n, cs, opt in argspec:
         c = S.build(cs)
         cons.append(S.schema.Optional(c, None) if opt else c)
-    res, w = S.call_trial([n for n, _, _ in argspec], cons, pos, [(n, x) for n, x in kws])
+    res, w = S.call_trial([n for n, _, _ in argspec], cons, pos, [(n, x) for n, x in kws], vocab=vocab)
     out = S.outcome_of(res)
     case = dict(tag=tag, family=family, argspec=argspec, pos=pos, kws=kws)
     rec = dict(case=case, ms=ms_term(S, w.ms))
@@ -344,7 +349,8 @@ def call_cases(ctx, S, E):
                     break
                 except TypeError:          # a mutation made a set element / dict key unhashable: try another
                     continue
-        wires = [S.slice_vs(v) for v in vals]
+        vocab = rng.choice([0, 1])
+        wires = [S.slice_vs(v, S.vocab_words(1) if vocab else None) for v in vals]
         if family == "wire":
             wires[j], family = mutate_wire(S, wires[j], rng)
         pos = wires[:npos]
@@ -361,12 +367,14 @@ def call_cases(ctx, S, E):
             kws = kws + [[NAMES[rng.randrange(npos)], ["wi", "INT", 1, 1]]]
         elif family == "unknown":
             kws = kws + [["z", ["wi", "INT", 1, 1]]]
-        elif family == "ref" and nargs >= 2 and vals[0][0] in ("l", "d", "s", "T", "fs"):
+        elif family == "ref" and nargs >= 2 and vals[0][0] in ("l", "d", "s", "T"):
+            # (not "fs": no sender ever references a frozenset -- FrozenSetSlicer.trackReferences is False -- and the
+            # receiver's table holds the TUPLE of its members for it, see the report)
             # argument k > 0 is sent as a back-reference to argument 0's object, whatever shape argument k must have
             pos = [wires[0], ["wr", vals[0], 0]] + wires[2:npos if npos > 2 else 2]
             kws = [[NAMES[k], wires[k]] for k in range(max(npos, 2), nargs)]
         kws.sort(key=lambda x: x[0])
-        recs.append(guarded(ctx, run_call, S, E, "gen", family, argspec, pos, kws))
+        recs.append(guarded(ctx, run_call, S, E, "gen", family, argspec, pos, kws, vocab))
     return [r for r in recs if r]
 
 
@@ -382,8 +390,8 @@ FIXED_ANSWERS = [
 ]
 
 
-def run_answer(ctx, S, E, tag, family, cs, ws):
-    res, w = S.answer_trial(cs, ws)
+def run_answer(ctx, S, E, tag, family, cs, ws, vocab=0):
+    res, w = S.answer_trial(cs, ws, vocab=vocab)
     out = S.outcome_of(res)
     case = dict(tag=tag, family=family, result_constraint=cs, wire=ws)
     rec = dict(case=case, ctr=S.to_ctr(w.ms.getResponseConstraint()))
@@ -398,6 +406,12 @@ def run_answer(ctx, S, E, tag, family, cs, ws):
             ctx.fail("oracle/result-reference-unchecked", "an answer that puts a back-reference to its own still-open tuple "
                      "into a slot of another declared shape was delivered: the callback received %r which violates the result "
                      "constraint %r (answer stream %s)" % (rec["value"], cs, str(ws)[:400]), replay=case)
+        elif not conforms and S.py_recv(cs, ws) != "ok":
+            # not D6 either: the documented TOKEN-level enforcement of this result constraint refuses this stream
+            # (token type / body size / fullness / opentype), so the value should never have been assembled
+            ctx.fail("oracle/result-token-check-missed", "an answer stream that the token-level checks of the result constraint "
+                     "%r must refuse (%s) was delivered: the callback received %r (answer stream %s)"
+                     % (cs, S.py_recv(cs, ws), rec["value"], str(ws)[:400]), replay=case)
         elif not conforms:
             ctx.fail("oracle/result-unchecked", "the callRemote callback received %r which violates the result constraint %r "
                      "(hand-built answer %s)" % (rec["value"], cs, str(ws)[:300]), replay=case)
@@ -416,6 +430,31 @@ def run_answer(ctx, S, E, tag, family, cs, ws):
     return rec
 
 
+HOSTILE = [["wi", "INT", 5, 5], ["wi", "INT", 2 ** 40, 2 ** 40], ["wi", "NEG", 7, -7], ["wi", "LONGINT", 5, 2 ** 39], ["wi", "LONGINT", 8, 2 ** 63],
+           ["wi", "LONGINT", 9, 2 ** 70], ["wi", "LONGNEG", 5, -(2 ** 39)], ["wf", 4609434218613702656], ["ws", False, 1, [65]],
+           ["ws", False, 30, [65] * 30], ["ws", True, 21, list(b"class")], ["wo", "none", []], ["wo", "list", []],
+           ["wo", "unicode", [["ws", False, 1, [65]]]], ["wo", "boolean", [["wi", "INT", 1, 1]]], ["wo", "tuple", []],
+           ["wo", "dict", []], ["wo", "set", []], ["wo", "immutable-set", []]]
+
+
+def hostile_sweep(ctx, S, E):
+    """every leaf constraint kind (bare, and as the item constraint of a list) as RESULT constraint against every token kind,
+    run after many other constraints were constructed in this process (state shared between constraint instances -- a
+    class-level taster, a cached adapter -- shows up here): whatever reaches the callback must satisfy the constraint,
+    and what the token-level checks must refuse must not arrive at all"""
+    from foolscap import schema
+    schema.NumberConstraint(); schema.IntegerConstraint(maxBytes=1024); schema.IntegerConstraint(maxBytes=None)
+    schema.ByteStringConstraint(maxLength=2000); schema.UnicodeConstraint(maxLength=2000)
+    recs = []
+    leaves = [l for l in S.LEAVES if l != ["any"]]
+    for leaf in leaves:
+        for ws in HOSTILE:
+            recs.append(guarded(ctx, run_answer, S, E, "hostile", "hostile", leaf, ws, 1))
+        for ws in HOSTILE[:9]:
+            recs.append(guarded(ctx, run_answer, S, E, "hostile", "hostile", ["list", leaf, None, 0], ["wo", "list", [ws]], 1))
+    return [r for r in recs if r]
+
+
 def answer_cases(ctx, S, E):
     rng = ctx.rng
     recs = []
@@ -427,6 +466,7 @@ def answer_cases(ctx, S, E):
         recs.append(r)
     for tag, cs, ws in FIXED_ANSWERS:
         recs.append(guarded(ctx, run_answer, S, E, tag, "fixed", cs, ws))
+    recs += hostile_sweep(ctx, S, E)
     for elem in PEND_ELEMS:                          # every OPEN-accepting constraint kind (and a few that refuse OPEN)
         for shape in ("list", "dict", "list2", "tuple-list", "tuple-list-inner"):
             cs, ws = pend_case(S, rng, elem, shape)
@@ -446,10 +486,11 @@ def answer_cases(ctx, S, E):
                     break
                 except TypeError:
                     continue
-        ws = S.slice_vs(v)
+        vocab = rng.choice([0, 1])
+        ws = S.slice_vs(v, S.vocab_words(1) if vocab else None)
         if family == "wire":
             ws, family = mutate_wire(S, ws, rng)
-        recs.append(guarded(ctx, run_answer, S, E, "gen", family, cs, ws))
+        recs.append(guarded(ctx, run_answer, S, E, "gen", family, cs, ws, vocab))
     return [r for r in recs if r]
 
 
